@@ -49,7 +49,7 @@ def replay(pid, harness, failed, tier, spec):
     # 1. concrete values
     r = kani_run.run_one(harness, 0, int(os.environ.get("VERIF_PLAYBACK_TIMEOUT", "2400")), 14000000,
                          extra_args=spec.get("extra_args"), features=spec.get("features"), playback=True,
-                         module=spec.get("module"), submod=spec.get("submod", "verif"),
+                         module=spec.get("module"), submod=spec.get("submod", "verif"), memcmp=spec.get("memcmp"),
                          cbmc_extra=["--property", failed[0]["check"]])
     text = open(r["log"], errors="replace").read()
     raw = extract_playback_bytes(text, [f["description"] for f in failed])
